@@ -112,6 +112,15 @@ var skeletonFuncs = [][3]string{
 	{"http/server.go", "Server", "streamDB"},
 	{"http/server.go", "Server", "streamLTX"},
 	{"http/server.go", "Server", "streamLTXSnapshot"},
+	// third batch: the Consul leaser
+	{"consul/consul.go", "Leaser", "Acquire"},
+	{"consul/consul.go", "Leaser", "AcquireExisting"},
+	{"consul/consul.go", "Leaser", "PrimaryInfo"},
+	{"consul/consul.go", "Leaser", "ClusterID"},
+	{"consul/consul.go", "Leaser", "SetClusterID"},
+	{"consul/consul.go", "Lease", "Renew"},
+	{"consul/consul.go", "Lease", "Handoff"},
+	{"consul/consul.go", "Lease", "Close"},
 }
 
 // genSkeletons renders, for each listed function, its control skeleton in source order:
